@@ -10,6 +10,7 @@ import (
 	"errors"
 	"fmt"
 	"sync"
+	"sync/atomic"
 	"time"
 
 	goheader "github.com/celestiaorg/go-header"
@@ -20,6 +21,17 @@ import (
 )
 
 func ms(v int64) time.Duration { return time.Duration(v) * time.Millisecond }
+
+// hang: in a "call in flight at stop" scenario the named call does not complete; like every well-behaved
+// collaborator it returns as soon as the context IT WAS GIVEN is done.
+func (c *Case) hang(ctx context.Context, call string) error {
+	if c == nil || c.HangCall != call {
+		return nil
+	}
+	atomic.AddInt32(&c.hangHits, 1)
+	<-ctx.Done()
+	return ctx.Err()
+}
 
 // pause blocks for d of virtual time.  With honour it returns ctx.Err() as soon as ctx is cancelled (after
 // a further lag, the time a remote call needs to notice); without, it sleeps the whole duration.
@@ -76,6 +88,9 @@ func (e *execDouble) InitChain(ctx context.Context, genesisTime time.Time, initi
 
 // GetTxs: the mempool receives a new transaction every TxEveryMs of virtual time; the last few are returned.
 func (e *execDouble) GetTxs(ctx context.Context) ([][]byte, error) {
+	if err := e.c.hang(ctx, "exec.GetTxs"); err != nil {
+		return nil, err
+	}
 	if e.c.TxEveryMs <= 0 {
 		return nil, nil
 	}
@@ -90,6 +105,9 @@ func (e *execDouble) GetTxs(ctx context.Context) ([][]byte, error) {
 }
 
 func (e *execDouble) ExecuteTxs(ctx context.Context, txs [][]byte, blockHeight uint64, timestamp time.Time, prev []byte) ([]byte, uint64, error) {
+	if err := e.c.hang(ctx, "exec.ExecuteTxs"); err != nil {
+		return nil, 0, err
+	}
 	if err := pause(ctx, ms(e.c.ExecDelayMs), ms(e.c.ExecLagMs), !e.c.ExecIgnoresCtx); err != nil {
 		return nil, 0, err
 	}
@@ -103,6 +121,9 @@ func (e *execDouble) ExecuteTxs(ctx context.Context, txs [][]byte, blockHeight u
 }
 
 func (e *execDouble) SetFinal(ctx context.Context, blockHeight uint64) error {
+	if err := e.c.hang(ctx, "exec.SetFinal"); err != nil {
+		return err
+	}
 	if err := pause(ctx, ms(e.c.FinalDelayMs), ms(e.c.FinalLagMs), !e.c.ExecIgnoresCtx); err != nil {
 		return err
 	}
@@ -118,12 +139,16 @@ func (e *execDouble) SetFinal(ctx context.Context, blockHeight uint64) error {
 // ---- sequencer: an in-memory FIFO ---------------------------------------------------------------
 
 type seqDouble struct {
+	c       *Case
 	mu      sync.Mutex
 	pending [][]byte
 	taken   [][]byte
 }
 
 func (s *seqDouble) SubmitBatchTxs(ctx context.Context, req coreseq.SubmitBatchTxsRequest) (*coreseq.SubmitBatchTxsResponse, error) {
+	if err := s.c.hang(ctx, "seq.SubmitBatchTxs"); err != nil {
+		return nil, err
+	}
 	s.mu.Lock()
 	defer s.mu.Unlock()
 	if req.Batch != nil {
@@ -132,6 +157,9 @@ func (s *seqDouble) SubmitBatchTxs(ctx context.Context, req coreseq.SubmitBatchT
 	return &coreseq.SubmitBatchTxsResponse{}, nil
 }
 func (s *seqDouble) GetNextBatch(ctx context.Context, req coreseq.GetNextBatchRequest) (*coreseq.GetNextBatchResponse, error) {
+	if err := s.c.hang(ctx, "seq.GetNextBatch"); err != nil {
+		return nil, err
+	}
 	s.mu.Lock()
 	defer s.mu.Unlock()
 	txs := s.pending
@@ -146,12 +174,17 @@ func (s *seqDouble) VerifyBatch(ctx context.Context, req coreseq.VerifyBatchRequ
 // ---- broadcasters -------------------------------------------------------------------------------
 
 type bcast[T any] struct {
+	c     *Case
+	name  string // "header" | "data"
 	mu    sync.Mutex
 	block bool // the P2P layer is stalled: the call returns only when its context is done
 	got   int
 }
 
 func (b *bcast[T]) WriteToStoreAndBroadcast(ctx context.Context, payload T) error {
+	if err := b.c.hang(ctx, "bcast.WriteToStoreAndBroadcast:"+b.name); err != nil {
+		return err
+	}
 	b.mu.Lock()
 	b.got++
 	blk := b.block
@@ -193,6 +226,9 @@ func (d *daDouble) post(blobs [][]byte) uint64 {
 }
 
 func (d *daDouble) SubmitWithOptions(ctx context.Context, blobs []coreda.Blob, gasPrice float64, ns []byte, opts []byte) ([]coreda.ID, error) {
+	if err := d.c.hang(ctx, "da.SubmitWithOptions"); err != nil {
+		return nil, err
+	}
 	if err := pause(ctx, ms(d.c.DASubmitDelayMs), 0, true); err != nil {
 		return nil, err
 	}
@@ -218,6 +254,9 @@ func (d *daDouble) Submit(ctx context.Context, blobs []coreda.Blob, gasPrice flo
 	return d.SubmitWithOptions(ctx, blobs, gasPrice, ns, nil)
 }
 func (d *daDouble) GetIDs(ctx context.Context, height uint64, ns []byte) (*coreda.GetIDsResult, error) {
+	if err := d.c.hang(ctx, "da.GetIDs"); err != nil {
+		return nil, err
+	}
 	if err := pause(ctx, ms(d.c.DAGetDelayMs), 0, true); err != nil {
 		return nil, err
 	}
@@ -241,6 +280,9 @@ func (d *daDouble) GetIDs(ctx context.Context, height uint64, ns []byte) (*cored
 	return &coreda.GetIDsResult{IDs: ids, Timestamp: time.Now()}, nil
 }
 func (d *daDouble) Get(ctx context.Context, ids []coreda.ID, ns []byte) ([]coreda.Blob, error) {
+	if err := d.c.hang(ctx, "da.Get"); err != nil {
+		return nil, err
+	}
 	d.mu.Lock()
 	defer d.mu.Unlock()
 	var out []coreda.Blob
@@ -287,8 +329,10 @@ func (d *daDouble) snapshot() map[uint64][][]byte {
 // ---- P2P stores (what the header / data sync services have received) ----------------------------------
 
 type p2pStore[H goheader.Header[H]] struct {
-	goheader.Store[H]     // only Height and GetByHeight are used by the block manager
-	items             []H // index i = height i+1
+	goheader.Store[H] // only Height and GetByHeight are used by the block manager
+	c                 *Case
+	name              string // "header" | "data"
+	items             []H    // index i = height i+1
 	from              time.Time
 	everyMs           int64 // one more item becomes available every so often (0 = all at once)
 }
@@ -309,6 +353,9 @@ func (s *p2pStore[H]) Height() uint64 {
 
 func (s *p2pStore[H]) GetByHeight(ctx context.Context, h uint64) (H, error) {
 	var zero H
+	if err := s.c.hang(ctx, "p2p.GetByHeight:"+s.name); err != nil {
+		return zero, err
+	}
 	if h == 0 || h > uint64(len(s.items)) {
 		return zero, fmt.Errorf("c13: height %d not in store", h)
 	}
